@@ -135,6 +135,12 @@ class DriverInterp(Interp):
             if a.v.key() > b.v.key():
                 a, b = b, a
         elif isinstance(a, Sc) and isinstance(b, Sc) and (is_index(a.v) or is_index(b.v)) and op not in ("==", "!="):
+            # `i < x.len()` (an explicit bounds assertion / guard): indices are in range by precondition -- the indexing
+            # `x[i]` of the other spellings panics exactly when this is false -- so the comparison is decided, not explored
+            if is_index(a.v) and is_len(b.v) and op in ("<", ">="):
+                return BoolV(op == "<")
+            if is_len(a.v) and is_index(b.v) and op in (">", "<="):
+                return BoolV(op == ">")
             raise Unsupported("ordering comparison on an element index")
         return Interp.compare(self, op, a, b)
 
@@ -266,6 +272,14 @@ def is_index(p):
     (m, c), = p.t.items()
     return c == 1 and len(m) == 1 and m[0][1] == (1, 0) and m[0][0][0] == "v" and not m[0][0][2] and \
         (m[0][0][1].startswith("$") or m[0][0][1] in ("i", "j", "k"))
+
+
+def is_len(p):
+    """the symbol `len_<dim>` of an element-uniform vector"""
+    if len(p.t) != 1:
+        return False
+    (m, c), = p.t.items()
+    return c == 1 and len(m) == 1 and m[0][1] == (1, 0) and isinstance(m[0][0][1], str) and m[0][0][1].startswith("len_")
 
 
 class NonUniformLoop(Exception):
